@@ -199,7 +199,12 @@ let model_line out w line =
          | "encode" | "ets" -> pr_string out (encode (unhex (str t)))
          | "ete" -> out ("E " ^ pr_elem (ete (unhex (str t))))
          | "tostring" -> out ("TS " ^ hex (to_string (mk_string t)))
-         | "ofbytes" -> let s = of_bytes (unhex (str t)) in pr_string out s; out ("TS " ^ hex (to_string s))
+         | "ofbytes" | "ofstd" -> let s = of_bytes (unhex (str t)) in pr_string out s; out ("TS " ^ hex (to_string s))
+         | "ofstdattr" ->
+             let bs = unhex (str t) in
+             let a = mk_attr t in
+             let s = List.map (fun e -> { eg = e.eg; ea = a }) (of_bytes bs) in
+             pr_string out s; out ("TS " ^ hex (to_string s))
          | "concat" -> let a = mk_string t in let b = mk_string t in
              out ("TS " ^ hex (to_string (a @ b))); out ("TS " ^ hex (to_string a @ to_string b))
          | _ -> out "ERR unknown markup op")
@@ -287,9 +292,15 @@ let oracle_mode () =
       let h = List.rev !l in
       let beh = Hashtbl.find behs id in
       let ct = !(Hashtbl.find wf id) in
-      if ct then List.iter (fun (name, wm, af, v0) ->
+      (* histories outside the hypotheses of the terminal-based theorems
+         (non-displayable glyphs, positions outside the declared size, ...) are
+         still judged on clause 1301, which needs no reference terminal: the
+         C13 theorems hold for every state *)
+      List.iter (fun (name, wm, af, v0) ->
         let cfg = { wrap = wm; bce = true; unicode_all = beh.b_unicode_all } in
         let fails = oracle_run cfg beh af ct v0 h in
+        let fails = if ct then fails else List.filter (fun (_, c) -> int_of_n c = 1301) fails in
+        let fails = if ct || name = "deferred/keep/clean" then fails else [] in
         List.iter (fun (i, c) ->
           (* D7 (known finding): on a terminal that wraps immediately, a draw
              that transmits the bottom-right cell scrolls the display.  Reported
